@@ -318,7 +318,9 @@ def mon_hist(r, pid):
             behs = [sc.get(y[4]) for y in op["q"]["pay"]]
             if all(bh is not None for bh in behs):
                 kinds = [bh[2] for bh in behs]
-                if "error" in kinds and "async" not in kinds[:kinds.index("error")]:
+                # (a payload answering with the sentinel bytes, an empty acknowledgement or asynchronously makes the
+                # keeper reject the message by design as soon as it is reached: only plain successes may precede)
+                if "error" in kinds and all(bh[2] == "success" and bh[3] != 0 for bh in behs[:kinds.index("error")]):
                     return "step %d: v2 receive with payload results %s reached the applications (%d callbacks ran) but was rejected instead of writing the single error acknowledgement" % (i, kinds, len(s["att"]))
         # C08: successful sends return consecutive sequences and write exactly one commitment
         if pid == "C08" and s["out"] == "ok" and k in ("send1", "send2") and prev_proj[ci] is not None:
